@@ -1,50 +1,115 @@
-"""C04 — end-to-end FDR control.  (A) the accept set / FDP of Model/Fdr.v against the real
-mokapot.qvalues.tdc, exhaustively on small ranked lists; (B) the sum over all labellings against the
-bound of C04_fdr_control; (C) the real brew with a memorising learner (unbounded capacity): training
-sets, routing and scores against the C02 model, no scored row is in the memory of its model, and a
-Monte-Carlo estimate of the FDP (reported; an alarm only for a gross excess)."""
+"""C04 — end-to-end FDR control.
+(A) the accept set / FDP of Model/Fdr.v against the real mokapot.qvalues.tdc, exhaustively on small ranked lists, the real
+    tdc being called with permuted rows and every score / label dtype and direction it accepts;
+(T) the same with TIED scores (every tie-group structure): FDP from the real tdc against the FDP from the C01 model (tdc of
+    Model/Tdc.v) and the sum over all labellings against alpha * 2^m (the property itself; Model/Fdr.v assumes distinct scores);
+(B) the sum over all labellings against the bound of C04_fdr_control;
+(C) simulated datasets with ground truth through the real read_pin + brew + assign_confidence with learners of unbounded
+    capacity: training sets, routing and scores against the C02 model, no scored row is in the memory of its model, the result
+    files against the C03 model and the competition / +1 oracle, re-scoring with the returned models, and a Monte-Carlo
+    estimate of the FDP from the q-value columns of the result files joined with the ground truth."""
 import itertools
+import os
+import shutil
+import tempfile
 from fractions import Fraction
+from pathlib import Path
 
 from .. import lib, brewlib
 from ..lib import Toks, call_impl
-from . import c02
+from . import c02, c03
+from .c01 import q_spec, exact_ints
 
 PROP = "C04"
 RULE = ("(A) every ranked list of n<=7 (quick) / n<=8 (thorough) positions, each a correct target, a null target or a "
         "null decoy, x alpha in {0.01,0.1,0.25,0.3,0.5,0.75}: FDP of the accept set from the model (fd_fdp, and via the "
-        "C01 model) vs targets with q<=alpha from the real tdc; (B) for every arrangement of n<=7/8 positions the sum of "
-        "the FDP over all labellings from the real tdc vs the model and vs alpha*2^m; (C) simulated datasets with ground "
-        "truth (correct targets, null targets and decoys from the same null) through the real read_pin + brew with a "
-        "memorising learner, folds 2-5, 10, 12. non-trivial = list has a null target above a correct target or a decoy in the top half; "
-        "all pipeline cases")
+        "C01 model) vs targets with q<=alpha from the real tdc, which is called in rotation with sorted / randomly permuted "
+        "rows, float64 / float32 / int64 / shifted-negative scores, bool / 0-1 int / 0.0-1.0 float labels, desc=True / "
+        "desc=False on negated scores; (T) every list of n<=5 / n<=6 positions x every grouping of adjacent positions into "
+        "TIED score groups (at least one tie) x alpha in {0.1,0.3,0.5}: FDP from the real tdc vs FDP from the q-values of "
+        "the C01 model; for every arrangement with ties the sum of the FDP over all labellings from the real tdc vs the "
+        "model and vs alpha*2^m (property oracle: Model/Fdr.v covers distinct scores only); (B) for every arrangement of "
+        "n<=7/8 positions the sum of the FDP over all labellings from the real tdc vs the model and vs alpha*2^m; (C) "
+        "simulated datasets with ground truth (spectra with 1-3 candidate PSMs: at most one correct target, the others null "
+        "targets / decoys from one null distribution; peptides shared between spectra; 1-3 jointly trained collections of "
+        "150-900 PSMs; spectrum keys of 1-4 columns; labels -1/1, 0/1, bool; rows shuffled / targets first / decoys first / "
+        "best first; 2-5 features) through the real read_pin + brew + assign_confidence; learners: row-memorising "
+        "estimator with decision_function (calibrated) or predict_proba only (uncalibrated), fully grown sklearn decision "
+        "tree, linear SVM; folds 2-5, 10, 12; test_fdr / train_fdr in {0.1,0.25,0.5}; max_iter 1-3; subset_max_train absent / "
+        "small / large; workers 1/3/8; prediction / training-read / confidence / merge-sort chunk sizes smaller than the data; "
+        "text / Parquet; result files of an earlier run present in the destination directory; worker threads with randomly "
+        "perturbed task durations; rng as int, Generator or None; the legacy numpy global RNG seeded differently per case. Checked per "
+        "case: C02 model (folds, training sets, routing, scores; linear SVM scores to 1e-9), leak = 0, result files = C03 model "
+        "when the final scores are distinct, C03 oracle (one best PSM per spectrum / peptide, q = (D+1)/T on the retained rows) "
+        "always, brew(models returned by the first run) reproduces scores and routing. Monte-Carlo: FDP among the targets "
+        "with q<=alpha in targets.psms / targets.peptides joined with the ground truth; 5 / 16 large datasets (1800-2600 PSMs, "
+        "rows shuffled, ties kept; brew stage checked by the C02 oracle alone, the extracted split model being too slow there) must keep the pooled FDP below alpha+0.04 (alpha=0.1) / alpha+0.05 (alpha=0.2) at PSM level, +0.06 / +0.08 at peptide level; all "
+        "datasets: alarm on a gross excess only. ensemble=True cases are a known finding. non-trivial = fdp: list has a null target and a null decoy, n>=3; tie lists: a tie group holds a target and a "
+        "decoy; pipeline: brew returned scores and result files were written")
 ASSUMPTIONS = [
     "exchangeability of null targets and decoys is the property's premise (simulated, not proved)",
     "that per-fold calibration preserves exchangeability when folds are merged is not proved (observed by the Monte-Carlo estimate)",
     "the equality 'accept set of fd_fdp = targets with tdc q <= alpha' is proved for every list (C04_accept_set_is_tdc, alpha < 1) about the C01 model; the real tdc is tied to that model by stream (A) here and by the C01 correspondence",
+    "tied scores: no theorem (Model/Fdr.v assumes pairwise distinct scores); the real tdc is compared with the C01 model and the bound is evaluated exhaustively on small lists",
+    "decision values of the linear SVM enter the C02 model as exact integers (common power-of-two scaling); the calibrated scores of the real code (three float roundings) are compared to 1e-9 relative",
+    "PEP estimation replaced by a constant (C06)",
 ]
-TRUSTED_EXTRA = c02.TRUSTED_EXTRA
+TRUSTED_EXTRA = c02.TRUSTED_EXTRA + c03.TRUSTED_EXTRA
 
 ALPHAS = ["0.01", "0.1", "0.25", "0.3", "0.5", "0.75"]
+TALPHAS = ["0.1", "0.3", "0.5"]
+NVAR = 6
 _MODEL = {}
+_TMODEL = {}
 _MC = []
+_STATUS = {}
+ENSEMBLE_KEY = "brew:ensemble-scores-training-rows"
 
 
 def _enc_ri(kinds):
     return lib.lst(kinds, lambda k: str(k))
 
 
+def _compositions(n):
+    """all ways to cut n adjacent positions into groups: lists of group sizes"""
+    for cuts in itertools.product((0, 1), repeat=n - 1):
+        sizes, cur = [], 1
+        for c in cuts:
+            if c:
+                sizes.append(cur)
+                cur = 1
+            else:
+                cur += 1
+        sizes.append(cur)
+        yield sizes
+
+
+def _group_scores(groups):
+    out = []
+    for g, size in enumerate(groups):
+        out.extend([g] * size)
+    return out
+
+
+def _tkey(groups, st):
+    return lib.stable_hash({"g": list(groups), "st": list(st)})
+
+
 def gen(ctx):
     cases = []
     nmax = 8 if ctx.thorough else 7
     lines, keys = [], []
+    idx = 0
+    prng = ctx.sub("c04-tdc-call-permutations")        # row permutations of the tdc calls
     for n in range(0, nmax + 1):
         # position state worst first: 0 = correct target, 1 = null target, 2 = null decoy
         for st in itertools.product((0, 1, 2), repeat=n):
             kinds = [0 if s == 0 else 1 for s in st]
             w = [s == 1 for s in st if s != 0]
             for a in (ALPHAS if n <= 6 else ALPHAS[1::2]):
-                c = {"fn": "fdp", "kinds": kinds, "w": w, "alpha": a, "tags": ["fdp", f"n={n}"]}
+                idx += 1
+                c = {"fn": "fdp", "kinds": kinds, "w": w, "alpha": a, "var": idx % NVAR, "salt": prng.randrange(2 ** 32),
+                     "tags": ["fdp", f"n={n}", "tdc-call=%s" % VARNAMES[idx % NVAR]]}
                 cases.append(c)
                 lines.append("c04.fdp %s %s %s" % (lib.q(Fraction(a)), _enc_ri(kinds), lib.lst(w, lib.b)))
                 keys.append(lib.stable_hash({"k": kinds, "w": w, "a": a}))
@@ -53,135 +118,712 @@ def gen(ctx):
             if sum(kinds) > 8:
                 continue
             for a in ("0.1", "0.3", "0.5"):
-                c = {"fn": "sum", "kinds": list(kinds), "alpha": a, "tags": ["sum", f"n={n}"]}
+                idx += 1
+                c = {"fn": "sum", "kinds": list(kinds), "alpha": a, "var": idx % NVAR, "salt": prng.randrange(2 ** 32),
+                     "tags": ["sum", f"n={n}"]}
                 cases.append(c)
                 lines.append("c04.sums %s %s" % (lib.q(Fraction(a)), _enc_ri(kinds)))
                 keys.append(lib.stable_hash({"k": list(kinds), "a": a, "sum": 1}))
     outs = lib.run_driver(lines)
     for k, o in zip(keys, outs):
         _MODEL[k] = o
-    # (C) pipeline with a memorising learner
-    rng = ctx.sub("c04-pipeline")
-    del _MC[:]
-    for k in range(40 if ctx.thorough else 10):
-        n = rng.randint(150, 400 if ctx.thorough else 260)
-        f = _simulate(rng, n)
-        cases.append({"fn": "pipeline", "files": [f], "folds": rng.choice([2, 3, 4, 5, 10, 12]), "seed": rng.randint(0, 10 ** 6),
-                      "test_fdr": "0.25", "train_fdr": 0.25, "learner": "memoriser", "workers": rng.choice([1, 3]),
-                      "subset_max_train": rng.choice([None, n // 3, n // 2]), "chunks": {}, "fmt": "tsv", "row_group": None,
-                      "est_mode": "decision", "tags": ["pipeline", "memoriser"]})
+    # (T) tied scores: the q-values of the C01 model for every (grouping, states)
+    nt = 6 if ctx.thorough else 5
+    tlines, tkeys = [], []
+    for n in range(2, nt + 1):
+        for groups in _compositions(n):
+            if max(groups) < 2:
+                continue
+            for st in itertools.product((0, 1, 2), repeat=n):
+                tlines.append(_tline(groups, st))
+                tkeys.append(_tkey(groups, st))
+                for a in TALPHAS:
+                    idx += 1
+                    cases.append({"fn": "tfdp", "groups": groups, "st": list(st), "alpha": a, "var": idx % NVAR,
+                                  "salt": prng.randrange(2 ** 32), "tags": ["tied-fdp", f"n={n}", "tdc-call=%s" % VARNAMES[idx % NVAR]]})
+    for k, o in zip(tkeys, lib.run_driver(tlines)):
+        _TMODEL[k] = o
+    for n in range(2, nt + 1):
+        for groups in _compositions(n):
+            if max(groups) < 2:
+                continue
+            for kinds in itertools.product((0, 1), repeat=n):
+                if sum(kinds) == 0:
+                    continue
+                for a in ("0.3", "0.5"):
+                    idx += 1
+                    cases.append({"fn": "tsum", "groups": groups, "kinds": list(kinds), "alpha": a, "var": idx % NVAR,
+                                  "salt": prng.randrange(2 ** 32), "tags": ["tied-sum", f"n={n}"]})
+    cases.extend(_pipeline_cases(ctx))
     return cases
 
 
-def _simulate(rng, n):
-    """one PSM per spectrum; correct targets score high, null targets and decoys share one distribution"""
-    kind = []
-    for i in range(n):
-        r = rng.random()
-        kind.append("correct" if r < 0.3 else ("null" if r < 0.65 else "decoy"))
-    cols = {"SpecId": ["f0_psm%d" % i for i in range(n)], "Label": [1 if k != "decoy" else -1 for k in kind],
-            "ScanNr": list(range(1, n + 1)), "ExpMass": [500 + (i % 40) * 0.25 for i in range(n)],
-            "rid": list(range(n))}
-    for j in range(3):
-        vals = []
-        for k in kind:
-            vals.append(rng.randint(55, 120) if (k == "correct" and rng.random() < 0.9) else rng.randint(0, 70))
-        cols["feat%d" % j] = vals
-    cols["Peptide"] = ["K.PEP%dK.A" % i for i in range(n)]
-    cols["Proteins"] = ["p%d" % (i % 7) for i in range(n)]
-    return {"columns": list(cols.keys()), "data": cols, "targets": [k != "decoy" for k in kind], "kind": kind}
+# ----------------------------------------------------------------------------- (C) simulated datasets
+LEARNERS = ["memoriser", "memoriser", "memoriser-proba", "tree", "svc"]
+FLOAT_LEARNERS = ("tree", "svc")
+ORDERS = ["shuffled", "shuffled", "targets-first", "decoys-first", "best-first"]
 
 
-# ----------------------------------------------------------------------------- implementation side
-def _impl_fdp(kinds, w, alpha):
+def _pipeline_cases(ctx):
+    rng = ctx.sub("c04-pipeline-v2")
+    del _MC[:]
+    _STATUS.clear()
+    cases = []
+    ncases = 150 if ctx.thorough else 34
+    for k in range(ncases):
+        nfiles = rng.choice([1, 1, 2, 3])
+        folds = rng.choice([2, 3, 4, 5, 2, 3, 4, 5, 10, 12])
+        # every learner and every number of collections occurs in both tiers
+        learner = LEARNERS[k % len(LEARNERS)] if k < 2 * len(LEARNERS) else rng.choice(LEARNERS)
+        if k < 6:
+            nfiles = 1 + k % 3
+        mult = rng.choice([1, 2, 3, 3])
+        nkey = rng.choice([1, 2, 2, 3, 4])
+        nfeat = rng.choice([2, 3, 3, 5])
+        lo = 150 if folds < 10 else (360 if nfiles == 1 else 480)
+        hi = (900 if ctx.thorough else 420) if folds < 10 else (900 if ctx.thorough else 560)
+        files = [_simulate(rng, rng.randint(lo, hi), file_idx=j, mult=mult, nkey=nkey, nfeat=nfeat,
+                           label_enc=rng.choice(["pm1", "pm1", "01", "bool"]), order=rng.choice(ORDERS))
+                 for j in range(nfiles)]
+        ntot = sum(len(f["targets"]) for f in files)
+        nmax = max(len(f["targets"]) for f in files)
+        chunks = {}
+        if rng.random() < 0.4:
+            chunks["predict"] = rng.choice([nmax // 9 + 1, nmax // 3 + 1, nmax // 2, nmax - 1, nmax, nmax + 1])
+        if rng.random() < 0.3:
+            chunks["trainread"] = rng.choice([nmax // 7 + 1, nmax // 2, nmax - 1, nmax + 1])
+        if rng.random() < 0.3:
+            chunks["confidence"] = rng.choice([3, 50, nmax - 1, nmax + 1])
+        if rng.random() < 0.2:
+            chunks["mergesort"] = rng.choice([2, 50, nmax + 1])
+        fmt = rng.choice(["tsv", "tsv", "tsv", "parquet"])
+        c = {"fn": "pipeline", "cid": "p%d" % k, "files": files, "folds": folds, "seed": rng.randint(0, 10 ** 6),
+             "test_fdr": rng.choice(["0.25", "0.25", "0.1", "0.5"] if folds <= 3 else ["0.25", "0.25", "0.5"]), "train_fdr": rng.choice([0.25, 0.25, 0.1, 0.5]),
+             "max_iter": rng.choice([1, 2, 2, 3]), "learner": learner, "workers": rng.choice([1, 1, 3, 8]),
+             "subset_max_train": rng.choice([None, None, ntot // 3, ntot // 2, ntot * 2] if nfiles == 1 else [None, None, None, ntot // 2, ntot * 2]),
+             "chunks": chunks, "fmt": fmt,
+             "row_group": rng.choice([None, 5, 64]) if fmt == "parquet" else None,
+             "est_mode": "proba" if learner in ("memoriser-proba", "tree") else "decision",
+             "rng_kind": rng.choice(["int", "int", "generator", "none"]), "np_seed": rng.randint(0, 2 ** 31 - 1),
+             "confidence": True, "tiebreak": rng.random() < 0.7, "rescore": rng.random() < 0.3, "ensemble": False,
+             "stale_results": rng.random() < 0.3}
+        if c["workers"] > 1 and rng.random() < 0.5:
+            c["sleep_seed"] = rng.randint(1, 10 ** 6)      # perturbed task durations: worker threads finish in another order
+        c["tags"] = ["pipeline", learner, f"files={nfiles}", f"folds={folds}", f"psms-per-spectrum<={mult}", f"keycols={nkey}",
+                     "cap" if c["subset_max_train"] else "nocap", fmt, "rng=" + c["rng_kind"],
+                     "chunks=" + (",".join(sorted(chunks)) or "default"), "tiebreak" if c["tiebreak"] else "ties-kept",
+                     "test_fdr=" + c["test_fdr"], "workers=%d" % c["workers"]] + (["rescore"] if c["rescore"] else []) \
+            + (["stale-result-files"] if c["stale_results"] else []) + (["thread-sleeps"] if c.get("sleep_seed") else []) \
+            + sorted(set("rows=" + f["order"] for f in files)) + sorted(set("labels=" + f["label_enc"] for f in files))
+        cases.append(c)
+    # large datasets (per-fold calibration is stable): the Monte-Carlo estimate of the FDP is held to a tight bound
+    for k in range(16 if ctx.thorough else 5):
+        learner = ["memoriser", "svc", "memoriser-proba"][k % 3]
+        f = _simulate(rng, rng.randint(1800, 2600), file_idx=0, mult=2, nkey=2, nfeat=3, label_enc="pm1", order="shuffled")
+        cases.append({"fn": "pipeline", "cid": "L%d" % k, "files": [f], "folds": rng.choice([2, 3, 3, 5]), "seed": rng.randint(0, 10 ** 6),
+                      "test_fdr": "0.25", "train_fdr": 0.25, "max_iter": 2, "learner": learner, "workers": rng.choice([1, 3]),
+                      "subset_max_train": None, "chunks": {}, "fmt": "tsv", "row_group": None,
+                      "est_mode": "proba" if learner == "memoriser-proba" else "decision",
+                      "rng_kind": "int", "np_seed": k, "confidence": True, "tiebreak": False, "rescore": False, "ensemble": False,
+                      "large": True, "tags": ["pipeline", learner, "mc-large"]})
+    # ensemble=True: every PSM is scored by the mean of ALL fold models (known finding, see known_findings.json)
+    for k in range(4 if ctx.thorough else 2):
+        f = _simulate(rng, rng.randint(200, 320), file_idx=0, mult=2, nkey=2, nfeat=3, label_enc="pm1", order="shuffled")
+        cases.append({"fn": "pipeline", "cid": "e%d" % k, "files": [f], "folds": rng.choice([2, 3, 5]), "seed": rng.randint(0, 10 ** 6),
+                      "test_fdr": "0.25", "train_fdr": 0.25, "max_iter": 2, "learner": "memoriser", "workers": 1,
+                      "subset_max_train": None, "chunks": {}, "fmt": "tsv", "row_group": None, "est_mode": "decision",
+                      "rng_kind": "int", "np_seed": k, "confidence": True, "tiebreak": True, "rescore": False, "ensemble": True,
+                      "tags": ["pipeline", "memoriser", "ensemble"]})
+    return cases
+
+
+def _simulate(rng, n, file_idx=0, mult=1, nkey=2, nfeat=3, label_enc="pm1", order="shuffled"):
+    """spectra with 1..mult candidate PSMs: at most one correct target per spectrum (scores high), every other PSM is a null
+    whose target / decoy label is a fair coin and whose features come from one distribution; peptides are shared between
+    spectra (correct PSMs draw from the pool of present peptides, nulls from a pool whose target and decoy halves are
+    exchangeable)"""
+    rows = []
+    spec = 0
+    npool = max(3, n // 4)
+    ncorrect_pool = max(2, n // 8)
+    unique_scan = nkey == 1 or rng.random() < 0.5
+    while len(rows) < n:
+        m = rng.randint(1, mult)
+        scan = spec + 1 if unique_scan else rng.randint(1, max(3, n // 3))
+        key = {"ScanNr": scan, "filename": "run%d.mzML" % (spec % 2), "ret_time": (spec % 37) * 0.5, "ExpMass": 500 + spec * 0.25}
+        has_correct = rng.random() < 0.45
+        for p in range(m):
+            if len(rows) >= n:
+                break
+            if p == 0 and has_correct:
+                kind = "correct"
+            else:
+                kind = "null" if rng.random() < 0.5 else "decoy"
+            if kind == "correct":
+                pep = "K.PEPC%dK.A" % rng.randrange(ncorrect_pool)
+            else:
+                pep = "K.PEPN%d%sK.A" % (rng.randrange(npool), "T" if kind == "null" else "D")
+            feats = [(rng.randint(55, 120) if (kind == "correct" and rng.random() < 0.9) else rng.randint(0, 70))
+                     for _ in range(nfeat)]
+            rows.append((key, kind, pep, feats, "p%d" % rng.randrange(7)))
+        spec += 1
+    if order == "shuffled":
+        rng.shuffle(rows)
+    elif order == "targets-first":
+        rng.shuffle(rows)
+        rows.sort(key=lambda r: r[1] == "decoy")
+    elif order == "decoys-first":
+        rng.shuffle(rows)
+        rows.sort(key=lambda r: r[1] != "decoy")
+    elif order == "best-first":
+        rows.sort(key=lambda r: -r[3][0])
+    kind = [r[1] for r in rows]
+    tg = [k != "decoy" for k in kind]
+    cols = {"SpecId": ["f%d_psm%d" % (file_idx, i) for i in range(n)]}
+    if label_enc == "pm1":
+        cols["Label"] = [1 if t else -1 for t in tg]
+    elif label_enc == "01":
+        cols["Label"] = [1 if t else 0 for t in tg]
+    else:
+        cols["Label"] = [bool(t) for t in tg]
+    cols["ScanNr"] = [r[0]["ScanNr"] for r in rows]
+    for name in brewlib.KEYSETS[nkey]:
+        cols[name] = [r[0][name] for r in rows]
+    cols["rid"] = [file_idx * 100000 + i for i in range(n)]
+    for j in range(nfeat):
+        cols["feat%d" % j] = [r[3][j] for r in rows]
+    cols["Peptide"] = [r[2] for r in rows]
+    cols["Proteins"] = [r[4] for r in rows]
+    return {"columns": list(cols.keys()), "data": cols, "targets": tg, "kind": kind, "order": order, "label_enc": label_enc}
+
+
+# ----------------------------------------------------------------------------- implementation side: tdc
+VARNAMES = ["sorted-f64-bool", "perm-f64-bool", "perm-i64-bool", "perm-f32-int", "perm-asc-negated-float", "perm-shifted-f64-int"]
+
+
+def _tdc_q(scores, flags, var, salt):
+    """q-values of the real tdc for integer scores (higher = better) and target flags; the call is made in one of NVAR
+    equivalent ways (row order, score dtype / offset, label container dtype, direction)"""
+    import random
     import numpy as np
     from mokapot.qvalues import tdc
+    n = len(scores)
+    perm = list(range(n))
+    if var:
+        random.Random(salt).shuffle(perm)
+    sc = [scores[p] for p in perm]
+    fl = [bool(flags[p]) for p in perm]
+    desc = True
+    if var in (0, 1):
+        s, t = np.array(sc, dtype=float), np.array(fl, dtype=bool)
+    elif var == 2:
+        s, t = np.array(sc, dtype=np.int64), np.array(fl, dtype=bool)
+    elif var == 3:
+        s, t = np.array(sc, dtype=np.float32), np.array([int(x) for x in fl], dtype=np.int64)
+    elif var == 4:
+        s, t = -np.array(sc, dtype=float), np.array([float(x) for x in fl], dtype=float)
+        desc = False
+    else:
+        s, t = np.array(sc, dtype=float) * 0.5 - 1e6, np.array([int(x) for x in fl], dtype=np.int32)
+    q = tdc(s, t, desc=desc)
+    if len(q) != n:
+        raise ValueError("tdc returned %d q-values for %d scores" % (len(q), n))
+    out = [None] * n
+    for j, p in enumerate(perm):
+        out[p] = float(q[j])
+    return out
+
+
+def _fdp_from_q(q, flags, null, alpha):
+    acc = [flags[i] and q[i] <= alpha for i in range(len(q))]
+    r = sum(acc)
+    v = sum(1 for i in range(len(q)) if acc[i] and null[i])
+    return Fraction(v, r) if r else Fraction(0)
+
+
+def _impl_fdp(kinds, w, alpha, var=0, scores=None, salt=0):
     flags, it = [], iter(w)
     for k in kinds:
         flags.append(True if k == 0 else bool(next(it)))
     n = len(kinds)
     if n == 0:
         return Fraction(0)
-    q = tdc(np.arange(n, dtype=float), np.array(flags, dtype=bool), desc=True)
-    acc = [flags[i] and float(q[i]) <= float(alpha) for i in range(n)]
-    r = sum(acc)
-    v = sum(1 for i in range(n) if acc[i] and kinds[i] == 1)
-    return Fraction(v, r) if r else Fraction(0)
+    sc = list(range(n)) if scores is None else scores
+    q = _tdc_q(sc, flags, var, salt)
+    return _fdp_from_q(q, flags, [k == 1 for k in kinds], float(alpha))
+
+
+def _cached(cache, key, line):
+    """model answer from the batch of gen(); a single driver call when the case comes from a replay file"""
+    if key not in cache:
+        cache[key] = lib.run_driver([line])[0]
+    return cache[key]
+
+
+def _tline(groups, st):
+    return "c01.tdc %s %s 0 %s" % (lib.b(True), lib.lst(_group_scores(groups)), lib.lst([0 if s == 2 else 1 for s in st]))
+
+
+def _model_tfdp(groups, st, alpha):
+    t = Toks(_cached(_TMODEL, _tkey(groups, st), _tline(groups, st)))
+    r = t.result(lambda: t.lst(t.q))
+    if r[0] != "ok":
+        raise lib.ModelError("c01.tdc: " + str(r[1]))
+    q = r[1]
+    flags = [s != 2 for s in st]
+    return _fdp_from_q(q, flags, [s == 1 for s in st], Fraction(alpha))
+
+
+def _states(kinds, w):
+    it = iter(w)
+    return [0 if k == 0 else (1 if next(it) else 2) for k in kinds]
+
+
+# ----------------------------------------------------------------------------- implementation side: pipeline
+def _classes():
+    """learners that record what they were fitted on (mem_) and every decision value they return (seen_), keyed by the row id
+    in feature column 0"""
+    if getattr(_classes, "done", None):
+        return _classes.done
+    import numpy as np
+    from sklearn.base import BaseEstimator, ClassifierMixin
+    from sklearn.tree import DecisionTreeClassifier
+    from sklearn.svm import LinearSVC
+    from sklearn.preprocessing import StandardScaler
+    from sklearn.pipeline import make_pipeline
+
+    class _Rec(BaseEstimator, ClassifierMixin):
+        def _start(self, X, y):
+            self.mem_ = {int(i): int(l) for i, l in zip(X[:, 0], y)}
+            self.classes_ = np.array([0, 1])
+            if not hasattr(self, "seen_"):
+                self.seen_ = {}
+
+        def _record(self, X, out):
+            for i, v in zip(X[:, 0], out):
+                self.seen_[int(i)] = float(v)
+
+    class MemoProba(_Rec):
+        """the memorising learner with predict_proba only: mokapot does not calibrate its scores between folds"""
+
+        def __init__(self, col=1):
+            self.col = col
+
+        def fit(self, X, y):
+            self._start(X, y)
+            return self
+
+        def predict_proba(self, X):
+            s = np.array([(1000.0 if self.mem_[int(r[0])] == 1 else -1000.0) if int(r[0]) in self.mem_ else float(r[self.col])
+                          for r in X]).reshape(-1)
+            self._record(X, s)
+            return np.vstack([-s, s]).T
+
+    class RecTree(_Rec):
+        """fully grown decision tree (unbounded capacity), predict_proba only; the row id column is not shown to it (with
+        rows listed targets first the row id would encode the label)"""
+
+        def fit(self, X, y):
+            self._start(X, y)
+            self.base_ = DecisionTreeClassifier(random_state=0).fit(X[:, 1:], np.asarray(y).astype(int))
+            return self
+
+        def predict_proba(self, X):
+            p = self.base_.predict_proba(X[:, 1:]) if X.shape[0] else np.zeros((0, 2))
+            self._record(X, p[:, 1])
+            return p
+
+    class RecSVC(_Rec):
+        """linear SVM on the standardised features (the row id column is not shown to it)"""
+
+        def fit(self, X, y):
+            self._start(X, y)
+            self.base_ = make_pipeline(StandardScaler(), LinearSVC(dual=False)).fit(X[:, 1:], np.asarray(y).astype(int))
+            return self
+
+        def decision_function(self, X):
+            s = self.base_.decision_function(X[:, 1:]) if X.shape[0] else np.zeros(0)
+            self._record(X, s)
+            return s
+
+    _classes.done = {"memoriser-proba": MemoProba, "tree": RecTree, "svc": RecSVC}
+    return _classes.done
+
+
+def _make_model(case):
+    from mokapot.model import Model
+    RecScaler, _ = brewlib.make_classes()
+    if case["learner"] == "memoriser":
+        est = brewlib.make_classes.Memoriser()
+    else:
+        est = _classes()[case["learner"]]()
+    return Model(est, scaler=RecScaler(), train_fdr=case.get("train_fdr", 0.25), max_iter=case.get("max_iter", 2),
+                 override=True, rng=case["seed"])
+
+
+def _rng_of(case):
+    import numpy as np
+    kind = case.get("rng_kind", "int")
+    if kind == "generator":
+        return np.random.default_rng(case["seed"])
+    return None if kind == "none" else case["seed"]
+
+
+def _scored_by_token(entries):
+    tr = {}
+    for tok, ids in entries:
+        tr.setdefault(tok, []).extend(ids)
+    return tr
+
+
+def run_pipeline(case):
+    """read_pin + brew + assign_confidence (+ brew again with the returned models) on the case; observation dict in the format
+    of brewlib.run_brew plus the parsed result files"""
+    import numpy as np
+    import mokapot
+    import mokapot.confidence as conf
+    LOG = brewlib.LOG
+    d = tempfile.mkdtemp(prefix="c04_", dir=os.environ.get("VERIF_TMP", "/tmp"))
+    try:
+        paths = [brewlib.write_file(f, d, "file%d" % i, case.get("fmt", "tsv"), case.get("row_group"))
+                 for i, f in enumerate(case["files"])]
+        np.random.seed(case.get("np_seed", 0))        # the legacy global generator must not matter
+        with brewlib.Chunking(**case.get("chunks", {})), brewlib.Sleeps(case.get("sleep_seed")):
+            dss = mokapot.read_pin(paths, max_workers=1)
+            keys = [brewlib.spectrum_keys(ds) for ds in dss]
+            brewlib.reset_log()
+            model = _make_model(case)
+            kw = {"ensemble": True} if case.get("ensemble") else {}
+            try:
+                _, models, scores, descs = mokapot.brew(
+                    dss, model, test_fdr=float(case["test_fdr"]), folds=case["folds"], max_workers=case.get("workers", 1),
+                    rng=_rng_of(case), subset_max_train=case.get("subset_max_train"), **kw)
+            except BaseException as e:   # noqa
+                if isinstance(e, (KeyboardInterrupt, SystemExit, MemoryError)):
+                    raise
+                return {"keys": keys, "error": lib.err_kind(e), "message": str(e)[:200], "est_fits": []}
+            fit_by_token = dict(LOG["fit"])
+            tr = _scored_by_token(LOG["transform"])
+            n_tr = len(LOG["transform"])
+            finite = all(np.all(np.isfinite(np.asarray(sc, dtype=float))) for sc in scores)
+            # ---- confidence
+            out = Path(d) / "out"
+            out.mkdir(exist_ok=True)
+            oldp = conf.peps_from_scores
+            conf.peps_from_scores = brewlib._const_peps
+            conf_scores = [np.asarray(sc, dtype=float).ravel() for sc in scores]
+            if case.get("tiebreak"):
+                conf_scores = [sc + np.arange(len(sc)) * 2.0 ** -20 for sc in conf_scores]
+            conf_err = None
+            if case.get("stale_results"):
+                # result files of an earlier run in the destination directory: must be replaced, not extended
+                pre = "coll0." if len(paths) > 1 else ""
+                for kind in ("targets", "decoys"):
+                    for level in ("psms", "peptides"):
+                        (out / f"{pre}{kind}.{level}").write_text(
+                            "PSMId\tpeptide\tscore\tq-value\tposterior_error_prob\tproteinIds\n"
+                            "f0_psm0\tK.STALEK.A\t99999.0\t0.0\t0.0\tp0\n")
+            try:
+                if not finite:
+                    # a fold whose calibration threshold equals its median decoy score: division by zero (C02 predicts it)
+                    raise ArithmeticError("brew returned non-finite scores: confidence stage not run")
+                prefixes = ["coll%d" % i for i in range(len(paths))] if len(paths) > 1 else [None]
+                mokapot.assign_confidence(dss, max_workers=case.get("workers", 1), scores=conf_scores, descs=list(descs),
+                                          eval_fdr=0.5, dest_dir=out, prefixes=prefixes, decoys=True)
+            except BaseException as e:   # noqa
+                if isinstance(e, (KeyboardInterrupt, SystemExit, MemoryError)):
+                    raise
+                conf_err = lib.err_kind(e) + ": " + str(e)[:150]
+            finally:
+                conf.peps_from_scores = oldp
+            conf_rows, leftovers = {}, []
+            for fn in sorted(os.listdir(out)):
+                parts = fn.split(".")
+                if "targets" in parts or "decoys" in parts:
+                    conf_rows[fn] = brewlib.parse_result_file(out / fn)
+                else:
+                    leftovers.append(fn)
+            # ---- brew again with the fitted models on freshly read datasets
+            rescore = None
+            if case.get("rescore"):
+                dss2 = mokapot.read_pin(paths, max_workers=1)
+                try:
+                    _, models2, scores2, _ = mokapot.brew(dss2, list(models), test_fdr=float(case["test_fdr"]),
+                                                          folds=case["folds"], max_workers=case.get("workers", 1),
+                                                          rng=_rng_of(case))
+                    tr2 = _scored_by_token(LOG["transform"][n_tr:])
+                    rescore = {"scores_equal": len(scores2) == len(scores) and all(
+                                   np.array_equal(np.asarray(a).ravel(), np.asarray(b).ravel()) for a, b in zip(scores, scores2)),
+                               "scored": [sorted(tr2.get(getattr(m.scaler, "token_", None), [])) for m in models2],
+                               "folds": [m.fold for m in models2]}
+                except BaseException as e:   # noqa
+                    if isinstance(e, (KeyboardInterrupt, SystemExit, MemoryError)):
+                        raise
+                    rescore = {"error": lib.err_kind(e) + ": " + str(e)[:150]}
+        return {
+            "keys": keys, "error": None,
+            "model_folds": [m.fold for m in models],
+            "trained": [bool(m.is_trained) for m in models],
+            "cols": [getattr(m.estimator, "col_", None) for m in models],
+            "train_ids": [sorted(fit_by_token.get(getattr(m.scaler, "token_", None), [])) for m in models],
+            "scored_ids": [sorted(tr.get(getattr(m.scaler, "token_", None), [])) for m in models],
+            "scores": [[Fraction(float(v)) if np.isfinite(v) else None for v in np.asarray(s).ravel()] for s in scores],
+            "descs": [bool(x) for x in descs],
+            "memory": [sorted(getattr(m.estimator, "mem_", {}).keys()) for m in models],
+            "seen": [dict(getattr(m.estimator, "seen_", {})) for m in models],
+            "conf_rows": conf_rows, "leftovers": leftovers, "conf_error": conf_err,
+            "conf_scores": [[Fraction(float(v)) for v in sc] for sc in conf_scores] if finite else None,
+            "finite": finite,
+            "rescore": rescore,
+        }
+    finally:
+        shutil.rmtree(d, ignore_errors=True)
+
+
+def _close(a, b):
+    if a is None or b is None or isinstance(a, str) or isinstance(b, str):
+        return a == b
+    return abs(a - b) <= Fraction(1, 10 ** 9) * max(1, abs(a), abs(b))
+
+
+def _conf_case(c, obs):
+    return {"fn": "conf", "files": c["files"], "scores": obs["conf_scores"], "dedup": True, "rollup": True, "decoys": True,
+            "prefixes": len(c["files"]) > 1, "chunks": {k: v for k, v in c.get("chunks", {}).items() if k == "confidence"},
+            "levels": [], "descs": True, "ties": False}
+
+
+def _mc_collect(c, obs):
+    """false discovery proportion among the accepted targets, from the q-value column of the result files"""
+    for fn, rows in obs["conf_rows"].items():
+        parts = fn.split(".")
+        if "targets" not in parts:
+            continue
+        j = int(parts[0][4:]) if parts[0].startswith("coll") else 0
+        if c.get("tiebreak") and c["files"][j]["order"] in ("targets-first", "decoys-first"):
+            continue        # the harness's own tie-break by row position favours the class listed last
+        level = parts[-1]
+        for a in ("0.05", "0.1", "0.2"):
+            acc = [r for r in rows if r["q"] <= Fraction(a)]
+            v = 0
+            for r in acc:
+                j, ri = c03._locate(r["id"])
+                v += c["files"][j]["kind"][ri] == "null"
+            _MC.append((level, a, v, len(acc), c["learner"], bool(c.get("large"))))
+
+
+def _compare_without_model(c, got):
+    """large datasets (the extracted fold-split model needs ~40 s for 2500 rows): the brew stage is checked by the property
+    oracle alone: one model per fold, every row scored by exactly one model, spectra not split between models (c02.oracle),
+    the training rows of a model = all rows it does not score (no training cap in these cases), no leak"""
+    if got[0] == "err":
+        return ("unknown", "read_pin failed"), ("err", got[1])
+    obs = got[1]
+    if obs.get("error"):
+        return ("err", obs["error"]), ("err", obs["error"])
+    k = c["folds"]
+    allrows = sorted(c02._gid(j, r) for j, f in enumerate(c["files"]) for r in range(len(f["targets"])))
+    train = []
+    for f in range(k):
+        comp = sorted(set(allrows) - set(obs["scored_ids"][f]))
+        train.append("ok" if obs["train_ids"][f] == comp else "mismatch")
+    impl = {"model_folds": obs["model_folds"], "scored": obs["scored_ids"], "trained": obs["trained"], "train": train,
+            "scores": "not compared (large dataset)"}
+    impl["brew_oracle"] = c02.oracle(c, ("ok", impl))
+    model = {"model_folds": list(range(1, k + 1)), "scored": obs["scored_ids"], "trained": [True] * k, "train": ["ok"] * k,
+             "scores": "not compared (large dataset)", "brew_oracle": None}
+    return ("ok", model), ("ok", impl)
+
+
+def _run_pipeline_case(c):
+    got = call_impl(run_pipeline, c)
+    obs = got[1] if got[0] == "ok" else None
+    got_m = got
+    den = 1
+    if obs and not obs.get("error") and c["learner"] in FLOAT_LEARNERS:
+        # float decision values -> exact integers by a common power-of-two factor (the calibration (s-t)/(t-d) is invariant
+        # under it; uncalibrated scores are divided by it again below)
+        flat = [(m, k, Fraction(v)) for m, seen in enumerate(obs["seen"]) for k, v in sorted(seen.items())]
+        for _, _, v in flat:
+            den = max(den, v.denominator)
+        scaled = [dict() for _ in obs["seen"]]
+        for m, k, v in flat:
+            scaled[m][k] = int(v * den)
+        got_m = ("ok", dict(obs, seen=scaled))
+    m, i = _compare_without_model(c, got_m) if c.get("large") else c02.compare(c, got_m)
+    if not (obs and not obs.get("error") and i[0] == "ok" and m[0] == "ok") or not obs.get("finite"):
+        _STATUS[c["cid"]] = "no-scores"
+        return m, i
+    if c["learner"] in FLOAT_LEARNERS and isinstance(m[1].get("scores"), list) and isinstance(i[1].get("scores"), list):
+        if c["est_mode"] != "decision":
+            m[1]["scores"] = [[x / den for x in s] for s in m[1]["scores"]]
+        if [len(x) for x in m[1]["scores"]] == [len(x) for x in i[1]["scores"]] \
+                and all(_close(a, b) for x, y in zip(m[1]["scores"], i[1]["scores"]) for a, b in zip(x, y)):
+            i[1]["scores"] = m[1]["scores"]           # equal to 1e-9
+    # ---- no scored row is in the memory of the estimator that scored it
+    leaked = 0
+    for f, rows in enumerate(obs["scored_ids"]):
+        mem = set(obs["memory"][f])
+        leaked += sum(1 for g in rows if g in mem)
+    i[1]["leaked"] = leaked
+    m[1]["leaked"] = 0
+    # ---- result files: C03 model (distinct final scores) and the competition / +1 oracle (always)
+    c3 = _conf_case(c, obs)
+    m[1]["conf_error"] = None
+    i[1]["conf_error"] = obs["conf_error"]
+    if obs["conf_error"] is None:
+        # the score column of the result files went through text intermediates: a value within 1e-9 (relative) of the score
+        # given to assign_confidence for that PSM is that score (same tolerance as C05)
+        for rows in obs["conf_rows"].values():
+            for r in rows:
+                try:
+                    j, ri = c03._locate(r["id"])
+                    want = obs["conf_scores"][j][ri]
+                except Exception:
+                    continue
+                if _close(Fraction(r["score"]), want):
+                    r["score"] = float(want)
+        raw = {"files": obs["conf_rows"], "leftovers": obs["leftovers"]}
+        m[1]["conf_oracle"] = None
+        i[1]["conf_oracle"] = c03.oracle(c3, ("ok", {"raw": raw}))
+        if not any(len(set(s)) < len(s) for s in obs["conf_scores"]):
+            mf = c03._model(c3)
+            m[1]["conf"] = {k: [(a, b) for a, b in v] for k, v in mf.items()}
+            i[1]["conf"] = {k: [(r["id"], r["q"]) for r in v] for k, v in obs["conf_rows"].items()}
+        else:
+            m[1]["conf"] = i[1]["conf"] = "tied final scores: C03 oracle only"
+        if not c.get("ensemble"):
+            _mc_collect(c, obs)
+        _STATUS[c["cid"]] = "scored"
+    # ---- brew(models of the first run) on the same data: same routing, same scores, no leak
+    if c.get("rescore"):
+        m[1]["rescore"] = {"scores_equal": True, "scored": obs["scored_ids"], "folds": obs["model_folds"]}
+        i[1]["rescore"] = obs["rescore"]
+    return m, i
 
 
 def run_case(c):
     if c["fn"] == "fdp":
-        t = Toks(_MODEL[lib.stable_hash({"k": c["kinds"], "w": c["w"], "a": c["alpha"]})])
+        t = Toks(_cached(_MODEL, lib.stable_hash({"k": c["kinds"], "w": c["w"], "a": c["alpha"]}),
+                         "c04.fdp %s %s %s" % (lib.q(Fraction(c["alpha"])), _enc_ri(c["kinds"]), lib.lst(c["w"], lib.b))))
         m = {"fdp": t.q(), "via_tdc": t.q()}
-        i = call_impl(_impl_fdp, c["kinds"], c["w"], c["alpha"])
+        i = call_impl(_impl_fdp, c["kinds"], c["w"], c["alpha"], c.get("var", 0), None, c.get("salt", 0))
         if i[0] == "ok":
             i = ("ok", {"fdp": i[1], "via_tdc": i[1]})
         return ("ok", m), i
     if c["fn"] == "sum":
-        t = Toks(_MODEL[lib.stable_hash({"k": c["kinds"], "a": c["alpha"], "sum": 1})])
+        t = Toks(_cached(_MODEL, lib.stable_hash({"k": c["kinds"], "a": c["alpha"], "sum": 1}),
+                         "c04.sums %s %s" % (lib.q(Fraction(c["alpha"])), _enc_ri(c["kinds"]))))
         m = {"sum_fdp": t.q()}
         mnull = sum(c["kinds"])
 
         def tot():
-            return sum((_impl_fdp(c["kinds"], list(w), c["alpha"]) for w in itertools.product((True, False), repeat=mnull)), Fraction(0))
+            return sum((_impl_fdp(c["kinds"], list(w), c["alpha"], c.get("var", 0), None, c.get("salt", 0) + j)
+                        for j, w in enumerate(itertools.product((True, False), repeat=mnull))), Fraction(0))
         i = call_impl(tot)
         if i[0] == "ok":
             i = ("ok", {"sum_fdp": i[1]})
         return ("ok", m), i
-    # pipeline
-    got = call_impl(brewlib.run_brew, c)
-    m, i = c02.compare(c, got)
-    if got[0] == "ok" and not got[1].get("error") and i[0] == "ok":
-        obs = got[1]
-        leaked = 0
-        for f, rows in enumerate(obs["scored_ids"]):
-            mem = set(obs["memory"][f])
-            leaked += sum(1 for g in rows if g in mem)
-        i[1]["leaked"] = leaked
-        m[1]["leaked"] = 0
-        # Monte-Carlo FDP at PSM level from the returned scores
-        f0 = c["files"][0]
-        from .c01 import q_spec, exact_ints
-        sc = obs["scores"][0]
-        if all(v is not None for v in sc):
-            qs = q_spec(exact_ints(sc), f0["targets"], True)
-            for a in ("0.05", "0.1", "0.2"):
-                acc = [j for j in range(len(sc)) if f0["targets"][j] and qs[j] <= Fraction(a)]
-                if acc:
-                    _MC.append((a, sum(1 for j in acc if f0["kind"][j] == "null") / len(acc), len(acc)))
-                else:
-                    _MC.append((a, 0.0, 0))
-    return m, i
+    if c["fn"] == "tfdp":
+        kinds = [0 if s == 0 else 1 for s in c["st"]]
+        w = [s == 1 for s in c["st"] if s != 0]
+        m = {"fdp": _model_tfdp(c["groups"], c["st"], c["alpha"])}
+        i = call_impl(_impl_fdp, kinds, w, c["alpha"], c.get("var", 0), _group_scores(c["groups"]), c.get("salt", 0))
+        if i[0] == "ok":
+            i = ("ok", {"fdp": i[1]})
+        return ("ok", m), i
+    if c["fn"] == "tsum":
+        mnull = sum(c["kinds"])
+        sc = _group_scores(c["groups"])
+        labs = list(itertools.product((True, False), repeat=mnull))
+        m = {"sum_fdp": sum((_model_tfdp(c["groups"], _states(c["kinds"], w), c["alpha"]) for w in labs), Fraction(0))}
+
+        def tot():
+            return sum((_impl_fdp(c["kinds"], list(w), c["alpha"], c.get("var", 0), sc, c.get("salt", 0) + j)
+                        for j, w in enumerate(labs)), Fraction(0))
+        i = call_impl(tot)
+        if i[0] == "ok":
+            i = ("ok", {"sum_fdp": i[1]})
+        return ("ok", m), i
+    return _run_pipeline_case(c)
+
+
+PIPE_KEYS = ("leaked", "conf_error", "conf_oracle", "conf", "rescore", "brew_oracle")
 
 
 def same(c, m, i):
-    if c["fn"] in ("fdp", "sum"):
+    if c["fn"] != "pipeline":
         return m[0] == i[0] == "ok" and lib.jsonable(m[1]) == lib.jsonable(i[1])
-    return c02.same(c, m, i) and (i[0] != "ok" or i[1].get("leaked", 0) == 0)
+    if not c02.same(c, m, i):
+        return False
+    if i[0] != "ok":
+        return True
+    return all(lib.jsonable(m[1].get(k)) == lib.jsonable(i[1].get(k)) for k in PIPE_KEYS)
 
 
 def nontrivial(c):
     if c["fn"] == "pipeline":
-        return True
+        return _STATUS.get(c.get("cid")) == "scored"
     if c["fn"] == "sum":
         return sum(c["kinds"]) >= 2
+    if c["fn"] == "tsum":
+        return sum(c["kinds"]) >= 2
+    if c["fn"] == "tfdp":
+        pos = 0
+        for size in c["groups"]:
+            g = c["st"][pos:pos + size]
+            pos += size
+            if 2 in g and (0 in g or 1 in g):
+                return True
+        return False
     kinds, w = c["kinds"], c["w"]
     return len(kinds) >= 3 and any(w) and not all(w)
 
 
 def oracle(c, i):
     if i[0] != "ok":
-        return None if c["fn"] == "pipeline" and str(i[1]).startswith("RuntimeError") else f"failed: {i[1]}"
-    if c["fn"] == "sum":
+        if c["fn"] == "pipeline" and str(i[1]).startswith("RuntimeError"):
+            return None          # no target below test_fdr in some fold: the explicit error of the calibration (C11)
+        if c["fn"] == "pipeline" and i[1] == "ValueError" and c.get("subset_max_train") and len(c["files"]) > 1:
+            # rng.choice(..., replace=False) of more rows than the smaller collection has: brew stops before anything is
+            # scored (predicted by the C02 model; reported in reviews/C04.md); no q-value is produced, so C04 is not concerned
+            return None
+        return f"failed: {i[1]}"
+    if c["fn"] in ("sum", "tsum"):
         m = sum(c["kinds"])
         if i[1]["sum_fdp"] > Fraction(c["alpha"]) * 2 ** m:
             return (f"expected FDP {float(i[1]['sum_fdp'] / 2 ** m)} over the {2 ** m} equally likely labellings exceeds "
-                    f"alpha = {c['alpha']}")
+                    f"alpha = {c['alpha']}" + (" (tied scores %s)" % _group_scores(c["groups"]) if c["fn"] == "tsum" else ""))
+        return None
+    if c["fn"] == "tfdp":
+        st = c["st"]
+        sc = _group_scores(c["groups"])
+        spec = q_spec(sc, [s != 2 for s in st], True)
+        want = _fdp_from_q(spec, [s != 2 for s in st], [s == 1 for s in st], Fraction(c["alpha"]))
+        if want != i[1]["fdp"]:
+            return (f"targets accepted at q <= {c['alpha']} by the real tdc have FDP {i[1]['fdp']}, the (D+1)/T formula evaluated "
+                    f"at the end of every tie group gives {want} (scores {sc}, worst first)")
         return None
     if c["fn"] == "pipeline":
-        if i[1].get("leaked"):
-            return f"{i[1]['leaked']} PSMs were scored by a model that had been fitted on them (memorised label returned)"
-        return c02.oracle(c, i)
+        o = i[1]
+        if o.get("leaked"):
+            return f"{o['leaked']} PSMs were scored by a model that had been fitted on them" + \
+                (" (ensemble=True: every PSM is scored by the mean of all fold models)" if c.get("ensemble") else "")
+        msg = c02.oracle(c, i)
+        if msg:
+            return msg
+        if o.get("conf_error"):
+            return "assign_confidence failed on the scores returned by brew: " + o["conf_error"]
+        if o.get("conf_oracle"):
+            return "result files after brew: " + o["conf_oracle"]
+        r = o.get("rescore")
+        if c.get("rescore") and r is not None:
+            if r.get("error"):
+                return "brew with the models returned by the first run failed: " + r["error"]
+            if r["scored"] != o["scored"]:
+                return "brew with the models returned by the first run routes PSMs to other models than the first run (a PSM is scored by a model that was trained on it)"
+            if not r["scores_equal"]:
+                return "brew with the models returned by the first run does not reproduce the scores"
+        return None
     return None
 
 
@@ -189,14 +831,39 @@ def extra_checks(ctx):
     info = {}
     fails = []
     by = {}
-    for a, fdp, nacc in _MC:
-        by.setdefault(a, []).append(fdp)
-    info["monte_carlo_fdp"] = {a: {"datasets": len(v), "mean_fdp": sum(v) / len(v)} for a, v in by.items()}
-    for a, v in by.items():
-        mean = sum(v) / len(v)
-        if len(v) >= 8 and mean > 3 * float(a) + 0.15:
-            fails.append({"what": f"mean FDP {mean:.3f} over {len(v)} simulated datasets at alpha={a} with a memorising learner",
-                          "failing_input": {"alpha": a, "mean_fdp": mean}})
+    big = {}
+    for level, a, v, r, learner, large in _MC:
+        by.setdefault((level, a), []).append((v, r))
+        if large:
+            t = big.setdefault((level, a), [0, 0, 0])
+            t[0] += v
+            t[1] += r
+            t[2] += 1
+    # large datasets (1800-2600 PSMs, 2-5 folds, rows shuffled, ties kept): the pooled FDP must stay within alpha + 0.04 / 0.05
+    # at PSM level and alpha + 0.06 / 0.08 at peptide level (fewer acceptances); observed on the unchanged code over five run
+    # seeds and both tiers: at most alpha + 0.011 / 0.02 (PSMs) and alpha + 0.002 / 0.029 (peptides)
+    LIMIT = {("psms", "0.1"): 0.14, ("psms", "0.2"): 0.25, ("peptides", "0.1"): 0.16, ("peptides", "0.2"): 0.28}
+    info["monte_carlo_fdp_large_datasets"] = {}
+    for (level, a), (v, r, nfile) in sorted(big.items()):
+        info["monte_carlo_fdp_large_datasets"].setdefault(level, {})[a] = {"result_files": nfile, "accepted": r, "false": v,
+                                                                           "pooled_fdp": v / max(1, r)}
+        if (level, a) in LIMIT and r >= 300 and v / r > LIMIT[(level, a)]:
+            fails.append({"what": f"pooled FDP {v / r:.3f} among {r} targets accepted at q<={a} ({level}) over {nfile} large simulated "
+                                  f"datasets exceeds {LIMIT[(level, a)]}",
+                          "failing_input": {"alpha": a, "level": level, "pooled_fdp": v / r, "accepted": r}})
+    mc = {}
+    for (level, a), vr in sorted(by.items()):
+        fd = [v / r for v, r in vr if r]
+        pooled = sum(v for v, r in vr) / max(1, sum(r for v, r in vr))
+        mc.setdefault(level, {})[a] = {"result_files": len(vr), "with_acceptances": len(fd),
+                                       "mean_fdp": (sum(fd) / len(fd)) if fd else None, "pooled_fdp": pooled}
+        # gross excess only: the premise is simulated, small folds make the per-fold calibration noisy
+        if len(fd) >= 8 and (sum(fd) / len(fd)) > 3 * float(a) + 0.15:
+            fails.append({"what": f"mean FDP {sum(fd) / len(fd):.3f} over {len(fd)} simulated result files ({level}) at alpha={a}",
+                          "failing_input": {"alpha": a, "level": level, "mean_fdp": sum(fd) / len(fd)}})
+    info["monte_carlo_fdp"] = mc
+    st = list(_STATUS.values())
+    info["pipeline_runs"] = {"scored": st.count("scored"), "no-scores (brew raised or returned non-finite scores; outcome compared with the C02 model)": st.count("no-scores")}
     # competition between a target and the decoy of the same spectrum that TIE in score: the winner must not be decided by
     # the position of the rows in the file (a file that lists its targets first would then lose its decoys selectively and
     # (D+1)/T would underestimate the FDR).  Probe: 400 spectra, one target and one decoy each with the same score (12 score
@@ -209,16 +876,18 @@ def extra_checks(ctx):
             fails.append({"what": ("target/decoy competition among tied scores is decided by row position: targets win "
                                    f"{f1:.2f} of the spectra when listed first and {f2:.2f} when listed last"),
                           "failing_input": probe})
+        elif f1 >= 0.9 and f2 >= 0.9:
+            # wherever the rows are, the target wins: the decoys of tied pairs vanish and (D+1)/T underestimates the FDR
+            # (a learner with few distinct outputs, e.g. a fully grown tree, ties most target/decoy pairs)
+            fails.append({"what": ("target/decoy competition among tied scores is decided by the label: targets win "
+                                   f"{f1:.2f} / {f2:.2f} of the tied spectra (listed first / last)"),
+                          "failing_input": probe})
     except Exception as e:       # the probe must not decide anything by crashing
         info["tie_competition_probe"] = {"crashed": f"{type(e).__name__}: {e}"[:200]}
     return fails, info
 
 
 def _tie_probe(ctx):
-    import os
-    import shutil
-    import tempfile
-    from pathlib import Path
     import numpy as np
     import pandas as pd
     import mokapot
@@ -255,4 +924,8 @@ def _tie_probe(ctx):
 
 
 def finding_key(c, m, i):
+    """ensemble=True scores every PSM with the mean of ALL fold models, k-1 of which were trained on it"""
+    if c.get("fn") == "pipeline" and c.get("ensemble"):
+        if i is not None and i[0] == "ok" and i[1].get("leaked", 0) > 0:
+            return ENSEMBLE_KEY
     return None
